@@ -301,9 +301,10 @@ def run(repo, rep, tier):
     ok, detail = _decimal_sign_table(fd)
     rep.ob("C13.R2", fd, "_format_decimal: style 1 drops the sign, styles >= 2 wrap the magnitude in parentheses, otherwise the minus sign stays", ok,
            "" if ok else detail + ": negative styles are decorated differently: sign or magnitude can change", key="C13.R2@negative-styles")
-    s = U(fc).replace(" ", "").replace("\n", "")
-    ok = "ifnumber_format.use_accounting_styleandvalue<0:" in s and "_format_decimal(abs(value),number_format)" in s and "returnsymbol+formatted_value" in s
-    rep.ob("C13.R2", fc, "_format_currency: accounting style formats the magnitude in parentheses; otherwise symbol + decimal text", ok, "", key="C13.R2@accounting")
+    from .. import numfmt as _nf
+    _fc, n_fc, fc_probs = _nf.check_format_currency(repo)
+    rep.ob("C13.R2", fc_probs[0][0] if fc_probs else fc, f"_format_currency: accounting style formats the magnitude in parentheses; otherwise symbol + decimal text ({n_fc} scenarios)",
+           not fc_probs, "" if not fc_probs else fc_probs[0][1] + (f" (and {len(fc_probs) - 1} more scenarios)" if len(fc_probs) > 1 else ""), key="C13.R2@accounting")
     ok = "ifpercent:formatted_value+='%'" in U(fd).replace(" ", "").replace("\n", "")
     rep.ob("C13.R2", fd, "percent sign appended after the digits", ok, "", key="C13.R2@percent")
     s = U(fd).replace(" ", "")
@@ -368,11 +369,9 @@ def run(repo, rep, tier):
     ok = "f'{formatted_value:.{number_format.decimal_places}E}'" in U(fsci)
     rep.ob("C13.R3", fsci, "scientific renderer shows decimal_places decimals", ok, "", key="C13.R3@scientific")
 
-    # ---- R4 two's complement width and base digits
-    tc = repo.func("cell.py", "_twos_complement")
-    nb = [n for n in body_walk(tc) if isinstance(n, ast.Assign) and U(n.targets[0]) == "num_bits"]
-    if not nb:
-        raise AnalysisError("_twos_complement: num_bits assignment not found")
+    # ---- R4 two's complement width and base digits (decision tables over the summarised renderers, numfmt.py)
+    from .. import numfmt
+    tc, n_tc, tc_probs, width_of = numfmt.twos_complement_table(repo)
     bad = []
     domain = []
     for k in range(0, 65):
@@ -380,38 +379,35 @@ def run(repo, rep, tier):
             v = 2**k + d
             if v >= 1:
                 domain.append(v)
+    w_node = tc
     try:
         for mag in sorted(set(domain)):
-            got = ev(nb[0].value, {"value": -mag, "base": 2})
+            w = width_of(mag)
+            w_node = w if hasattr(w, "lineno") else w_node
+            got = ev(w, {tc.args.args[0].arg: -mag, tc.args.args[1].arg: 2})
             need = max(32, (mag - 1).bit_length() + 1)
             if got != need:
-                bad.append((-mag, got, need))
+                bad.append((-mag, got, need, U(w)))
     except Unknown as e:
         raise AnalysisError(f"_twos_complement: width expression outside the evaluator's language: {e}") from e
-    rep.ob("C13.R4", nb[0], f"two's complement width `{U(nb[0].value)[:60]}` over every power-of-two boundary up to 2^64", not bad,
-           "" if not bad else f"{len(bad)} wrong widths, e.g. value={bad[0][0]}: {bad[0][1]} bits (needs {bad[0][2]}): the sign bit is lost", key="C13.R4@twos-width")
-    s = U(tc).replace(" ", "")
-    ok = "inverted_bin_value=_invert_bit_str(bin_value).rjust(num_bits,'1')" in s and "twos_complement_dec=int(inverted_bin_value,2)+1" in s and "bin_value=bin(abs(value))[2:]" in s
-    rep.ob("C13.R4", tc, "two's complement = invert the magnitude's bits over the width, plus one", ok, "", key="C13.R4@twos-steps")
-    fb = repo.func("cell.py", "_format_base")
-    s = U(fb).replace(" ", "").replace("\n", "")
-    ok = "whilevalue:formatted_value.append(int(value%number_format.base))value//=number_format.base" in s and "''.join([INT_TO_BASE_CHAR[x]forxinformatted_value[::-1]])" in s
-    rep.ob("C13.R4", fb, "base renderer: repeated division by the base, digits most significant first", ok, "", key="C13.R4@base-digits")
-    ok = "ifis_negative:return'-'+formatted_value.zfill(number_format.base_places)returnformatted_value.zfill(number_format.base_places)" in s and "value=round(value)" in s
-    rep.ob("C13.R4", fb, "base renderer: minus sign outside the zero padding to base_places digits", ok, "", key="C13.R4@base-pad")
-    ok = "ifnotnumber_format.base_use_minus_signandnumber_format.basein[2,8,16]:ifvalue<0:return_twos_complement(value,number_format.base)" in s
-    rep.ob("C13.R4", fb, "two's complement only for bases 2, 8, 16 without minus sign", ok, "", key="C13.R4@base-twos")
+    rep.ob("C13.R4", tc, f"two's complement width over every power-of-two boundary up to 2^64 ({len(set(domain))} magnitudes)", not bad,
+           "" if not bad else f"{len(bad)} wrong widths, e.g. value={bad[0][0]}: `{bad[0][3][:60]}` = {bad[0][1]} bits (needs {bad[0][2]}): the sign bit is lost", key="C13.R4@twos-width")
+    rep.ob("C13.R4", tc_probs[0][0] if tc_probs else tc, f"two's complement = invert the magnitude's bits over the width, plus one, printed in the base ({n_tc} scenarios)", not tc_probs,
+           "" if not tc_probs else tc_probs[0][1], key="C13.R4@twos-steps")
+    fb, n_fb, fb_probs = numfmt.check_format_base(repo)
+    for cat, title, key in (("digits", "base renderer: repeated division by the base, digits most significant first", "C13.R4@base-digits"),
+                            ("pad", "base renderer: zero and the minus sign outside the zero padding to base_places digits", "C13.R4@base-pad"),
+                            ("twos", "two's complement exactly for negative values in bases 2, 8, 16 without minus sign", "C13.R4@base-twos")):
+        ps = [x for x in fb_probs if x[0] == cat]
+        rep.ob("C13.R4", ps[0][1] if ps else fb, f"{title} ({n_fb} scenarios)", not ps, "" if not ps else ps[0][2] + (f" (and {len(ps) - 1} more scenarios)" if len(ps) > 1 else ""), key=key)
     tbl = repo.module_assign("cell.py", "INT_TO_BASE_CHAR")
     ok = U(tbl).replace(" ", "") == "[str(x)forxinrange(10)]+[chr(x)forxinrange(ord('A'),ord('Z')+1)]"
     rep.ob("C13.R4", tbl, "digit table is 0-9 then A-Z (36 digits)", ok, "", key="C13.R4@digit-table")
-    ff = repo.func("cell.py", "_format_fraction")
-    s = U(ff).replace(" ", "").replace("\n", "")
-    ok = "ifaccuracy&4278190080:num_digits=4294967296-accuracyreturn_float_to_n_digit_fraction(value,num_digits)return_float_to_fraction(value,accuracy)" in s
-    rep.ob("C13.R4", ff, "fraction renderer: high accuracies encode digit counts, others are denominators", ok, "", key="C13.R4@fraction-dispatch")
-    f2 = repo.func("cell.py", "_float_to_fraction")
-    s = U(f2).replace(" ", "")
-    ok = "whole=int(value)" in s and "numerator=round(denominator*(value-whole))" in s
-    rep.ob("C13.R4", f2, "fixed-denominator fraction: numerator = round(denominator * fractional part)", ok, "", key="C13.R4@fraction-fixed")
+    ff, n_ff, ff_probs = numfmt.check_format_fraction(repo)
+    hi = [x for x in ff_probs if "digit count" in x[1]]
+    lo = [x for x in ff_probs if "digit count" not in x[1]]
+    rep.ob("C13.R4", hi[0][0] if hi else ff, f"fraction renderer: high accuracies encode digit counts ({n_ff} accuracies)", not hi, "" if not hi else hi[0][1], key="C13.R4@fraction-dispatch")
+    rep.ob("C13.R4", lo[0][0] if lo else ff, "fixed-denominator fraction: numerator = round(denominator * fractional part)", not lo, "" if not lo else lo[0][1], key="C13.R4@fraction-fixed")
     rep.sub(check_fraction_parts, repo, rep)
     rep.floor("C13.R1", 40)
     rep.floor("C13.R2", 6)
@@ -459,5 +455,51 @@ VARIANTS = [
     M("paren-style-threshold", "cell.py", "elif value < 0 and number_format.negative_style >= 2:", "elif value < 0 and number_format.negative_style > 2:", "C13.R2"),
     M("base-ignores-places", "cell.py", "    return formatted_value.zfill(number_format.base_places)\n\n\ndef _format_fraction_parts_to", "    return formatted_value\n\n\ndef _format_fraction_parts_to", "C13.R"),
     M("currency-dispatch-decimal", "cell.py", "            return _format_currency(self._d128, custom_format)", "            return _format_decimal(self._d128, custom_format)", "C13.R1"),
+    M("base-sign-before-rounding", "cell.py", """    value = round(value)
+
+    is_negative = False
+    if not number_format.base_use_minus_sign and number_format.base in [2, 8, 16]:
+        if value < 0:
+            return _twos_complement(value, number_format.base)
+        value = abs(value)
+    elif value < 0:
+        is_negative = True
+        value = abs(value)
+""", """    is_negative = False
+    if not number_format.base_use_minus_sign and number_format.base in [2, 8, 16]:
+        if value < 0:
+            return _twos_complement(round(value), number_format.base)
+        value = abs(value)
+    elif value < 0:
+        is_negative = True
+        value = abs(value)
+    value = round(value)
+""", "C13.R4"),
+    T("base-sign-flag-form", "cell.py", """    is_negative = False
+    if not number_format.base_use_minus_sign and number_format.base in [2, 8, 16]:
+        if value < 0:
+            return _twos_complement(value, number_format.base)
+        value = abs(value)
+    elif value < 0:
+        is_negative = True
+        value = abs(value)
+""", """    base = number_format.base
+    is_negative = value < 0
+    if is_negative and not number_format.base_use_minus_sign and base in (2, 8, 16):
+        return _twos_complement(value, base)
+    value = abs(value)
+"""),
+    M("base-twos-for-every-base", "cell.py", "    if not number_format.base_use_minus_sign and number_format.base in [2, 8, 16]:", "    if not number_format.base_use_minus_sign:", "C13.R4"),
+    M("fraction-numerator-truncated", "cell.py", "    numerator = round(denominator * (value - whole))", "    numerator = int(denominator * (value - whole))", "C13.R4"),
+    M("fraction-digit-count-off", "cell.py", "        num_digits = 0x100000000 - accuracy", "        num_digits = 0xFFFFFFFF - accuracy", "C13.R4"),
+    M("currency-accounting-keeps-sign", "cell.py", 'return f"{symbol}\\t({_format_decimal(abs(value), number_format)})"', 'return f"{symbol}\\t({_format_decimal(value, number_format)})"', "C13.R2"),
+    T("currency-early-returns", "cell.py", """    formatted_value = _format_decimal(value, number_format)
+    if number_format.use_accounting_style:
+        return f"{symbol}\\t{formatted_value}"
+    return symbol + formatted_value
+""", """    if not number_format.use_accounting_style:
+        return symbol + _format_decimal(value, number_format)
+    return symbol + "\\t" + _format_decimal(value, number_format)
+"""),
     T("twos-bit-length", "cell.py", "num_bits = max([32, (abs(value) - 1).bit_length() + 1])", "num_bits = max(32, (abs(value) - 1).bit_length() + 1)"),
 ]
